@@ -103,10 +103,22 @@ def model_expr(c, im):
     cur = "None" if im["cur"] is None else "(Some fr%d)" % im["cur"]
     excs = cm.clist([cm.cstr(x) for x in im["live_exc"][:4]])
     qs = cm.clist([c_query(q) for q in modelled_queries(c)])
-    return "%srun_save %s %s %s %s %s %s %s %s %s %s %s true %s %s %s" % (
-        lets, cm.cbool(bool(c.get("script"))), c_frames_arg(im["eff"]["frames"]), c_vars_arg(im["eff"]["variables"]),
+    return "%srun_save %s %s %s %s %s %s %s %s %s %s %s %s true %s %s %s" % (
+        lets, cm.cbool(bool(c.get("script"))), cm.cbool(N2_REPAIRED), c_frames_arg(im["eff"]["frames"]), c_vars_arg(im["eff"]["variables"]),
         c_vars_arg(im["eff"]["exclude"]), cur, exn, rxt, validt, unpk, cm.cN(c["umask"]),
         cm.copt(c.get("pre"), cm.cN), cm.cbool(im["dump_ok"]), excs, qs)
+
+
+def _n2_repaired():
+    """the model variant of saveframe's debugger default follows the status of C17-N2 in the known findings:
+    open = the file name is used as a regex (code as it is), fixed:<commit> = re.escape (fixes/C17N2-*.diff)"""
+    for e in cm.load_known("C17"):
+        if e.get("id") == "C17-N2":
+            return str(e.get("status", "open")).startswith("fixed")
+    return False
+
+
+N2_REPAIRED = _n2_repaired()
 
 
 def dedup(rx):
